@@ -293,7 +293,7 @@ def run_history(hist: List[list]) -> Dict[str, Any]:
 def _worker_main():
     data = json.load(sys.stdin)
     fn = {"hist": run_history, "meta": run_meta, "loop": run_loop, "roles": run_roles, "clone": run_clone, "grow": run_grow,
-          "lateclass": run_lateclass}
+          "lateclass": run_lateclass, "special": run_special}
     out = {"tbl": class_table(), "res": []}
     import gc
     import test.dataset.university_ontology_like_classes  # noqa  (fixed set of Symbol classes per worker)
@@ -716,6 +716,158 @@ def run_lateclass(payload) -> Dict[str, Any]:
     gc.collect()
     SymbolGraph().remove_dead_instances()
     return {"problems": problems}
+
+
+def run_special(payload) -> Dict[str, Any]:
+    """C13 scenarios outside the history machine; each returns what was observed (`got`) and what the property demands
+    (`expected`), as canonical JSON:
+      paths      "however they were created": constructor, copy.copy, copy.deepcopy, dataclasses.replace, and objects read back from
+                 their data access objects (to_dao(x).from_dao()); before and after the originals are dropped
+      predicate  instances of Predicate types (update_cache skips them)
+      idattr     a Symbol class whose instances answer to the name `_id_` (catch-all __getattr__ / a field of that name)
+      nestsel    a nested query that is only SELECTED (its variable is in no condition, the nested query is in no condition):
+                 an(set_of([an(entity(x))])) / an(entity(an(entity(x)))), evaluated again after instances were created / dropped"""
+    import copy
+    import dataclasses
+    import gc
+    from dataclasses import dataclass, field
+    from krrood.entity_query_language.entity import entity, let, set_of
+    from krrood.entity_query_language.predicate import Symbol, Predicate, HasType
+    from krrood.entity_query_language.quantify_entity import an
+    from krrood.entity_query_language.symbol_graph import SymbolGraph
+
+    gc.collect()
+    SymbolGraph().clear()
+    SymbolGraph()
+    kind = payload["kind"]
+    run_special.counter = getattr(run_special, "counter", 0) + 1
+    tag = run_special.counter
+    got: Dict[str, Any] = {}
+    exp: Dict[str, Any] = {}
+
+    def ids(T, pool):
+        """numbers (positions in pool) of what let(T, None) ranges over; -1 for anything not in the pool"""
+        num = {id(x): k for k, x in enumerate(pool)}
+        return sorted(num.get(id(v), -1) for v in an(entity(let(T, None))).evaluate())
+
+    if kind == "paths":
+        cl, _ = _classes()
+        A, G = cl[0], cl[6]
+        pool = [A(n=1, uid=1), cl[3](n=2, uid=2), G(n=3, uid=3)]
+        pool.append(copy.copy(pool[0]))
+        pool.append(copy.deepcopy(pool[1]))
+        pool.append(dataclasses.replace(pool[2], n=30))
+        for name, T in (("A", A), ("D", cl[3]), ("G", G)):
+            exp["made " + name] = sorted(k for k, x in enumerate(pool) if isinstance(x, T))
+            got["made " + name] = ids(T, pool)
+        originals = pool[:3]
+        pool[0] = pool[1] = pool[2] = None
+        del originals
+        gc.collect()
+        for name, T in (("A", A), ("D", cl[3]), ("G", G)):
+            exp["originals dropped " + name] = sorted(k for k, x in enumerate(pool) if x is not None and isinstance(x, T))
+            got["originals dropped " + name] = ids(T, pool)
+        # objects read back from their data access objects
+        from krrood.ormatic.dao import to_dao
+        from test.dataset.example_classes import Position, Position4D, Orientation, Pose
+        import test.dataset.ormatic_interface  # noqa  (the generated DAO classes)
+        SymbolGraph().clear()
+        SymbolGraph()
+        objs = [Position(1, 2, 3), Position4D(1, 2, 3, 4), Pose(Position(7, 8, 9), Orientation(0, 0, 0, 1))]
+        back = [to_dao(o).from_dao() for o in objs]
+        pool2 = objs + [objs[2].position, objs[2].orientation] + back + [back[2].position, back[2].orientation]
+        for name, T in (("Position", Position), ("Position4D", Position4D), ("Pose", Pose), ("Orientation", Orientation)):
+            exp["from_dao " + name] = sorted(k for k, x in enumerate(pool2) if isinstance(x, T))
+            got["from_dao " + name] = ids(T, pool2)
+        del objs
+        for k in (0, 1, 2, 3, 4):
+            pool2[k] = None
+        gc.collect()
+        for name, T in (("Position", Position), ("Pose", Pose)):
+            exp["from_dao, originals dropped " + name] = sorted(k for k, x in enumerate(pool2) if x is not None and isinstance(x, T))
+            got["from_dao, originals dropped " + name] = ids(T, pool2)
+    elif kind == "predicate":
+        IsHeavy = dataclass(eq=False)(type(f"IsHeavy{tag}", (Predicate,), {
+            "__annotations__": {"weight": int}, "__call__": lambda self: self.weight > 10}))
+        cl, _ = _classes()
+        pool = [IsHeavy(20), HasType(1, int), cl[0](n=1, uid=1)]
+        for name, T in (("own predicate", IsHeavy), ("HasType", HasType), ("Predicate", Predicate)):
+            exp[name] = sorted(k for k, x in enumerate(pool) if isinstance(x, T))
+            got[name] = ids(T, pool)
+    elif kind == "idattr":
+        if payload["variant"] == "getattr":
+            Rec = dataclass(eq=False)(type(f"Record{tag}", (Symbol,), {
+                "__annotations__": {"name": str}, "name": "", "__getattr__": lambda self, item: None}))
+            pool = [Rec("a"), Rec("b"), Rec("c")]
+        else:
+            Rec = dataclass(eq=False)(type(f"Row{tag}", (Symbol,), {"__annotations__": {"name": str, "_id_": int}, "name": "", "_id_": 7}))
+            pool = [Rec("a", 7), Rec("b", 7), Rec("c", 8)]
+        exp["all"] = [0, 1, 2]
+        got["all"] = ids(Rec, pool)
+    elif kind == "nestsel":
+        cl, _ = _classes()
+        A = cl[0]
+        pool = [A(n=0, uid=0), cl[1](n=1, uid=1)]
+        x = let(A, None)
+        inner = an(entity(x))
+        outer = an(set_of([inner])) if payload["form"] == "setof" else an(entity(inner))
+
+        def ev():
+            num = {id(o): k for k, o in enumerate(pool) if o is not None}
+            rows = list(outer.evaluate())
+            vals = [r[inner] for r in rows] if payload["form"] == "setof" else rows
+            return sorted(num.get(id(v), -1) for v in vals)
+
+        exp["first"] = [0, 1]
+        got["first"] = ev()
+        pool.append(cl[3](n=2, uid=2))
+        exp["after a creation"] = [0, 1, 2]
+        got["after a creation"] = ev()
+        pool[0] = None
+        gc.collect()
+        exp["after a drop"] = [1, 2]
+        got["after a drop"] = ev()
+        del x, inner, outer
+        gc.collect()
+        exp["fresh query afterwards"] = [1, 2]
+        got["fresh query afterwards"] = ids(A, [o for o in pool])
+    else:
+        raise ValueError(kind)
+    del pool
+    gc.collect()
+    SymbolGraph().remove_dead_instances()
+    return {"got": got, "expected": exp}
+
+
+def special_jobs(rep: Report, prop: str, payloads: List[dict]) -> Dict[str, int]:
+    """run `special` scenarios; got != expected is a violation unless the payload is the witness of a listed open finding
+    AND the observation equals the recorded defect behaviour (then it is an instance of that finding)"""
+    open_f = {}
+    for f in core.load_findings(prop):
+        w = json.loads((core.VERIF / f.witness).read_text())
+        if "special" in w and f.kind == "open":
+            open_f[json.dumps(w["special"], sort_keys=True)] = (f, w)
+    _, res = run_jobs([("special", p) for p in payloads], chunk=1, procs=6) if payloads else (None, [])
+    inst: Dict[str, int] = {}
+    for p, r in zip(payloads, res):
+        key = json.dumps(p, sort_keys=True)
+        rep.count("special:" + key, True)
+        if "fatal" not in r and r["got"] == r["expected"]:
+            if key in open_f:
+                rep.note(f"finding {open_f[key][0].fid}: witness no longer fails (appears repaired)")
+            continue
+        if "fatal" not in r and key in open_f and r["got"] == open_f[key][1].get("defect_got"):
+            f = open_f[key][0]
+            inst[f.fid] = inst.get(f.fid, 0) + 1
+            rep.known(f)
+            continue
+        diff = {k: {"got": r["got"].get(k), "expected": v} for k, v in r.get("expected", {}).items() if r["got"].get(k) != v} if "fatal" not in r else r
+        rep.violation({"kind": "counterexample", "special": p, "impl": diff,
+                       "python": "import json; from harness import c13\n"
+                                 f"print(json.dumps(c13.run_special({p!r}), indent=1))   # run with ./check's PYTHONPATH",
+                       "explanation": "let(T, None) does not range over exactly the existing instances of T (numbers = positions in the "
+                                      "scenario's pool of objects, -1 = something else); see run_special for the scenario"})
+    return inst
 
 
 def scenario_jobs(rep: Report, kind: str, payloads: List[dict], explanation: str) -> int:
@@ -1182,6 +1334,15 @@ def run(tier: str, seed: int, replay=None) -> int:
     else:
         late = [{"T": t, "parent": p} for t, p in ((0, 0), (0, 1), (1, 3), (2, 3), (6, 6), (0, 7), (0, 5))]
         grow = [{"rounds": 2, "extend_after": e, "evaluations": n} for e, n in ((0, 2), (1, 1), (2, 2))]
+    if replay and replay.get("special") is not None:
+        specials = [replay["special"]]
+    elif replay:
+        specials = []
+    else:
+        specials = [{"kind": "paths"}, {"kind": "predicate"}, {"kind": "idattr", "variant": "getattr"},
+                    {"kind": "idattr", "variant": "field"}, {"kind": "nestsel", "form": "setof"}, {"kind": "nestsel", "form": "entity"}]
+    for fid, k in special_jobs(rep, PROP, specials).items():
+        inst[fid] = inst.get(fid, 0) + k
     scenario_jobs(rep, "lateclass", late, "a subclass of T defined AFTER a domain-less variable over T was evaluated: its instances "
                   "have to be in the range of every later evaluation over T")
     scenario_jobs(rep, "grow", grow, "one query object evaluated, extended with a conclusion that introduces a new domain-less variable, "
